@@ -665,7 +665,9 @@ theorem gov_burnValidators {s s1 : State} (h : burnValidators s = some s1) : gov
       simp only at hf
       split at hf
       · simp at hf
-      · simp at hf; subst hf; simp [hp]) s.burns s st rfl hst
+      · split at hf
+        · simp at hf
+        · simp at hf; subst hf; simp [hp]) s.burns s st rfl hst
   simp only [gov] at this ⊢
   exact this
 
